@@ -1,8 +1,10 @@
 from . import streams_codec, cli
+from . import streams_partmeshb
 
 ID = 'C08'
-PROPS_MODULE = ['Refine.Props.C08', 'Refine.Props.C08Endian']
-STREAMS = [streams_codec.MESHB_WRITE, streams_codec.MESHB_READ, cli.CONVERT, cli.CONVERT_MPI]
+PROPS_MODULE = ['Refine.Props.C08', 'Refine.Props.C08Endian', 'Refine.Props.C08Part']
+STREAMS = [streams_codec.MESHB_WRITE, streams_codec.MESHB_READ, cli.CONVERT, cli.CONVERT_MPI,
+           streams_partmeshb.READ, streams_partmeshb.CHUNK_S]
 EXPLANATION = (
     'Proved in Lean (Refine/Props/C08.lean): decodeMeshb (encodeMeshb v m) = ok m for every WellFormed mesh and '
     'v in {2,3,4} (all 16 cell groups, vertex coordinates as bit patterns, ids, geometry records with gref as a '
